@@ -167,6 +167,9 @@ pub enum Step {
     WaitSig(u8),
     Signal(u8),
     Send { kind: SendKind, slot: u8, msg: MsgSpec },
+    /// create the future of a send without polling it, run `other` to completion, then await the
+    /// first future (or drop it unpolled): what the losing branch of a select! looks like
+    SendThen { kind: SendKind, slot: u8, msg: MsgSpec, other: Box<Step>, drop_first: bool },
     Stop(u8),
     Kill(u8),
     CloneH { from: u8, to: u8 },
